@@ -88,12 +88,14 @@ func RunEvm(opt EvmOptions) (*Result, error) {
 			cu := universeOf(c)
 			o := cu.runCase(c, true)
 			got = o.Sig
-			if o.DiffAt >= 0 && o.Sig != "precondition:subbalance-underflow" {
+			if o.DiffAt >= 0 && o.Sig != "precondition:subbalance-underflow" && o.Sig != "excluded:code-equals-deletion-marker" {
 				res.Hit(o.Sig, 2_000_000+ci, "corpus "+name+": "+o.Detail, o.Lines[:o.DiffAt+1])
 			}
 			corr = append(corr, evCorrCase{Index: 2_000_000 + ci, Out: o})
 		}
 		switch {
+		case got == expect && expect == "":
+			res.Distribution["corpus:regression-holds:"+name]++ // repaired: adapter = reference on this input
 		case got == expect:
 			res.Distribution["corpus:reproduced:"+expect]++
 		case got == "":
@@ -128,6 +130,8 @@ func RunEvm(opt EvmOptions) (*Result, error) {
 			res.Distribution["diff:"+o.Sig]++
 			if o.Sig == "precondition:subbalance-underflow" {
 				res.Counters["precondition-subbalance-underflow"]++
+			} else if o.Sig == "excluded:code-equals-deletion-marker" {
+				res.Counters["excluded-code-equals-deletion-marker"]++
 			} else {
 				lines := o.Lines[:o.DiffAt+1]
 				if res.MonitorHitCount[o.Sig] < 2 {
